@@ -1,5 +1,5 @@
 //verif:dir x/apps/keeper
-//verif:for C20,C28
+//verif:for C20,C28,C13
 //go:build verifnative
 
 package keeper
